@@ -13,7 +13,7 @@ TDgram == Ev("dgram") /\ c' = Datagram(c, e.dir, e.i, e.pkts, e.fate, Arg)
 TDlv == Ev("dlv") /\ c' = Delivered(c, e.dir, e.i)
 TUndeliverable == Ev("undeliverable") /\ c' = c
 TQ == Ev("q") /\ c' = (IF e.name = "packet_sent" THEN PacketSent(c, e.side, e.ty, e.pn, e.len)
-                       ELSE IF e.name = "packet_received" THEN PacketReceived(c, e.side, e.ty, e.pn)
+                       ELSE IF e.name = "packet_received" THEN PacketReceived(c, e.side, e.ty, e.pn, e.carries_data)
                        ELSE c)
 TApp == Ev("app") /\ c' = (CASE e.op = "write" -> AppWrite(c, e.side, e.sid, e.n)
                              [] e.op = "shutdown" -> AppShutdown(c, e.side, e.sid)
